@@ -1,10 +1,565 @@
-//! C22 — not built yet.
+//! C22 Status and metrics documents are always well-formed.
+//!
+//! A `Metrics` value with generated TAL names, repository URIs, collector entries and log books is
+//! installed through `SharedHistory::update`; `/api/v1/status` and `/metrics` are fetched through
+//! the real dispatcher. The status document must parse as JSON and its strings must decode to the
+//! injected ones; the exposition must parse with the text-format parser of `parsers.rs` and its
+//! label values must decode to the injected ones.
+
+use std::cell::Cell;
+use std::net::IpAddr;
+use std::os::unix::process::ExitStatusExt;
+use std::time::Duration;
+
+use proptest::prelude::*;
+use routinator::collector::{HttpStatus, SnapshotReason};
+use routinator::log::LogBookWriter;
+use routinator::metrics::{Metrics, RepositoryMetrics, RrdpRepositoryMetrics, RsyncModuleMetrics, TalMetrics};
+use rpki::repository::tal::TalInfo;
+use rpki::uri;
+use serde::{Deserialize, Serialize};
 
 use crate::core::*;
+use crate::fmtx::*;
+use crate::parsers::*;
 
-pub const IMPLEMENTED: bool = false;
+pub const KEY_STATUS_CTL: &str = "C22/status/control-char-unescaped";
+pub const KEY_LABEL_QUOTE: &str = "C22/metrics/label-unescaped/quote";
+pub const KEY_LABEL_BACKSLASH: &str = "C22/metrics/label-unescaped/backslash";
+pub const KEY_LABEL_NEWLINE: &str = "C22/metrics/label-unescaped/newline";
 
-pub fn run(_ctx: &Ctx, _rep: &mut Report, _replay: Option<&serde_json::Value>) {
-    eprintln!("C22: check not implemented");
-    std::process::exit(2);
+#[derive(Serialize, Deserialize, Clone, Debug)]
+pub struct LogMsg {
+    /// 0 error, 1 warn(=info in LogBookWriter), 2 info, 3 debug
+    pub level: u8,
+    pub text: String,
+}
+
+#[derive(Serialize, Deserialize, Clone, Debug)]
+pub struct RsyncEntry {
+    pub module: String,
+    /// None = spawn error, Some(raw wait status)
+    pub status: Option<i32>,
+    pub duration_ms: Option<u32>,
+    pub log: Option<Vec<LogMsg>>,
+}
+
+#[derive(Serialize, Deserialize, Clone, Debug)]
+pub struct RrdpEntry {
+    pub uri: String,
+    /// 0 error, 1 rejected, else an HTTP status code
+    pub notify: u16,
+    pub payload: Option<u16>,
+    pub serial: Option<u64>,
+    pub session: bool,
+    pub reason: Option<u8>,
+    pub duration_ms: Option<u32>,
+    pub log: Option<Vec<LogMsg>>,
+}
+
+#[derive(Serialize, Deserialize, Clone, Debug)]
+pub struct Case {
+    pub tals: Vec<String>,
+    pub repos: Vec<String>,
+    pub rsync: Vec<RsyncEntry>,
+    pub rrdp: Vec<RrdpEntry>,
+    pub pub_point_logs: Vec<(String, Vec<LogMsg>)>,
+    pub rtr_detailed: bool,
+    pub rtr_clients: Vec<IpAddr>,
+    pub counter: u32,
+}
+
+struct Sink;
+impl log::Log for Sink {
+    fn enabled(&self, _: &log::Metadata) -> bool {
+        true
+    }
+    fn log(&self, _: &log::Record) {}
+    fn flush(&self) {}
+}
+static SINK: Sink = Sink;
+
+fn book(msgs: &[LogMsg]) -> routinator::log::LogBook {
+    let mut w = LogBookWriter::new(None);
+    for m in msgs {
+        let lvl = match m.level % 4 {
+            0 => log::Level::Error,
+            1 => log::Level::Warn,
+            2 => log::Level::Info,
+            _ => log::Level::Debug,
+        };
+        w.log(lvl, format_args!("{}", m.text));
+    }
+    w.into_book()
+}
+
+fn http_status(code: u16) -> HttpStatus {
+    match code {
+        0 => HttpStatus::Error,
+        1 => HttpStatus::Rejected,
+        c => routinator::reqwest::StatusCode::from_u16(c).map(HttpStatus::Response).unwrap_or(HttpStatus::Error),
+    }
+}
+
+fn reason(n: u8) -> SnapshotReason {
+    match n % 6 {
+        0 => SnapshotReason::NewRepository,
+        1 => SnapshotReason::NewSession,
+        2 => SnapshotReason::BadDeltaSet,
+        3 => SnapshotReason::LargeDeltaSet,
+        4 => SnapshotReason::OutdatedLocal,
+        _ => SnapshotReason::ConflictingDelta,
+    }
+}
+
+fn build_metrics(case: &Case) -> Result<Metrics, String> {
+    let mut m = Metrics::new();
+    for (i, name) in case.tals.iter().enumerate() {
+        let mut t = TalMetrics::new(TalInfo::from_name(name.clone()).into_arc());
+        t.publication.valid_roas = case.counter.wrapping_add(i as u32);
+        t.publication.valid_points = i as u32;
+        t.payload.v4_origins.valid = case.counter / 2;
+        t.payload.v6_origins.contributed = 3;
+        m.tals.push(t);
+    }
+    for (i, uri) in case.repos.iter().enumerate() {
+        let mut r = RepositoryMetrics::new(uri.clone());
+        r.publication.valid_manifests = i as u32 + 1;
+        r.payload.router_keys.valid = case.counter % 7;
+        m.repositories.push(r);
+    }
+    for e in &case.rsync {
+        m.rsync.push(RsyncModuleMetrics {
+            module: uri::Rsync::from_string(e.module.clone()).map_err(|e| format!("rsync uri: {}", e))?,
+            status: match e.status {
+                Some(raw) => Ok(std::process::ExitStatus::from_raw(raw)),
+                None => Err(std::io::Error::other("spawn failed")),
+            },
+            duration: Ok(Duration::from_millis(e.duration_ms.unwrap_or(0) as u64)),
+            log_book: e.log.as_ref().map(|l| book(l)),
+        });
+    }
+    for e in &case.rrdp {
+        let mut r = RrdpRepositoryMetrics::new(uri::Https::from_string(e.uri.clone()).map_err(|e| format!("https uri: {}", e))?);
+        r.notify_status = http_status(e.notify);
+        r.payload_status = e.payload.map(http_status);
+        r.serial = e.serial;
+        r.session = if e.session { Some(uuid::Uuid::from_u128(0x1234_5678_9abc_def0_1234_5678_9abc_def0)) } else { None };
+        r.snapshot_reason = e.reason.map(reason);
+        r.duration = Ok(Duration::from_millis(e.duration_ms.unwrap_or(0) as u64));
+        r.log_book = e.log.as_ref().map(|l| book(l));
+        m.rrdp.push(r);
+    }
+    for (u, msgs) in &case.pub_point_logs {
+        m.pub_point_logs.push((uri::Rsync::from_string(u.clone()).map_err(|e| format!("rsync uri: {}", e))?, book(msgs)));
+    }
+    m.publication.valid_roas = case.counter;
+    m.snapshot.large_aspas = case.counter % 3;
+    Ok(m)
+}
+
+/// Strings that `/api/v1/status` renders.
+fn status_strings(case: &Case) -> Vec<&str> {
+    let mut v: Vec<&str> = case.tals.iter().map(|s| s.as_str()).collect();
+    v.extend(case.repos.iter().map(|s| s.as_str()));
+    for e in &case.rsync {
+        v.extend(e.log.iter().flatten().map(|m| m.text.as_str()));
+    }
+    for e in &case.rrdp {
+        v.extend(e.log.iter().flatten().map(|m| m.text.as_str()));
+    }
+    for (_, l) in &case.pub_point_logs {
+        v.extend(l.iter().map(|m| m.text.as_str()));
+    }
+    v
+}
+
+/// Strings that `/metrics` renders as label values.
+fn label_strings(case: &Case) -> Vec<&str> {
+    case.tals.iter().chain(case.repos.iter()).map(|s| s.as_str()).collect()
+}
+
+/// The known-finding key a label set falls under (highest-priority offending character).
+pub fn label_key(case: &Case) -> Option<&'static str> {
+    let l = label_strings(case);
+    if l.iter().any(|s| s.contains('"')) {
+        Some(KEY_LABEL_QUOTE)
+    } else if l.iter().any(|s| s.contains('\\')) {
+        Some(KEY_LABEL_BACKSLASH)
+    } else if l.iter().any(|s| s.contains('\n')) {
+        Some(KEY_LABEL_NEWLINE)
+    } else {
+        None
+    }
+}
+
+pub fn status_key(case: &Case) -> Option<&'static str> {
+    if status_strings(case).iter().any(|s| has_json_ctl(s)) {
+        Some(KEY_STATUS_CTL)
+    } else {
+        None
+    }
+}
+
+pub struct Env<'a> {
+    pub kit: &'a Kit,
+    pub rt: &'a tokio::runtime::Runtime,
+    pub ctx: &'a Ctx,
+    /// Skip documents whose input has a listed known-finding shape (bulk search only).
+    pub exclude: bool,
+    /// Which documents to fetch and judge.
+    pub judge_status: bool,
+    pub judge_metrics: bool,
+    pub excluded_status: Cell<u64>,
+    pub excluded_quote: Cell<u64>,
+    pub excluded_backslash: Cell<u64>,
+    pub excluded_newline: Cell<u64>,
+}
+
+fn level_name(l: u8) -> &'static str {
+    // LogBookWriter::warn logs at Info, but `log(Level::Warn, ..)` keeps Warn
+    match l % 4 {
+        0 => "ERROR",
+        1 => "WARN",
+        2 => "INFO",
+        _ => "DEBUG",
+    }
+}
+
+fn check_issues(what: &str, arr: Option<&JVal>, msgs: &[LogMsg], msg_member: &str) -> Result<(), String> {
+    let arr = arr.filter(|a| a.is_arr()).ok_or_else(|| format!("{}: issues array missing", what))?;
+    let got: Vec<(String, String)> = arr
+        .items()
+        .iter()
+        .map(|i| (i.get("level").and_then(|x| x.as_str()).unwrap_or("?").to_string(), i.get(msg_member).and_then(|x| x.as_str()).unwrap_or("<missing>").to_string()))
+        .collect();
+    let want: Vec<(String, String)> = msgs.iter().map(|m| (level_name(m.level).to_string(), m.text.clone())).collect();
+    if got != want {
+        return Err(format!("{}: log messages decode to {:?}, injected {:?}", what, got, want));
+    }
+    Ok(())
+}
+
+fn judge_status(case: &Case, body: &[u8]) -> Result<(), (String, String)> {
+    let generic = |k: &str| status_key(case).map(|s| s.to_string()).unwrap_or_else(|| format!("C22/status/{}", k));
+    let doc = JVal::parse(body).map_err(|e| (generic("invalid-json"), format!("/api/v1/status is not valid JSON: {}", e)))?;
+    let names = |member: &str| -> Vec<String> { doc.get(member).map(|o| o.members().iter().map(|(k, _)| k.clone()).collect()).unwrap_or_default() };
+    if names("tals") != case.tals {
+        return Err((generic("decode/tal-names"), format!("tals members {:?}, injected {:?}", names("tals"), case.tals)));
+    }
+    if names("repositories") != case.repos {
+        return Err((generic("decode/repository-uris"), format!("repositories members {:?}, injected {:?}", names("repositories"), case.repos)));
+    }
+    let rsync: Vec<String> = case.rsync.iter().map(|e| e.module.clone()).collect();
+    if names("rsync") != rsync {
+        return Err((generic("decode/rsync-modules"), format!("rsync members {:?}, injected {:?}", names("rsync"), rsync)));
+    }
+    let rrdp: Vec<String> = case.rrdp.iter().map(|e| e.uri.clone()).collect();
+    if names("rrdp") != rrdp {
+        return Err((generic("decode/rrdp-uris"), format!("rrdp members {:?}, injected {:?}", names("rrdp"), rrdp)));
+    }
+    for (i, e) in case.rsync.iter().enumerate() {
+        let obj = &doc.get("rsync").unwrap().members()[i].1;
+        match &e.log {
+            Some(l) => check_issues("rsync", obj.get("issues"), l, "messages").map_err(|m| (generic("decode/log-messages"), m))?,
+            None if obj.get("issues").is_some() => return Err((generic("decode/log-messages"), "issues without a log book".into())),
+            None => {}
+        }
+    }
+    for (i, e) in case.rrdp.iter().enumerate() {
+        let obj = &doc.get("rrdp").unwrap().members()[i].1;
+        match &e.log {
+            Some(l) => check_issues("rrdp", obj.get("issues"), l, "messages").map_err(|m| (generic("decode/log-messages"), m))?,
+            None if obj.get("issues").is_some() => return Err((generic("decode/log-messages"), "issues without a log book".into())),
+            None => {}
+        }
+    }
+    // pub_point_logs are sorted by URI when the metrics are finalised
+    let mut want = case.pub_point_logs.clone();
+    want.sort_by(|a, b| a.0.cmp(&b.0));
+    let got = doc.get("pubPointIssues").map(|o| o.members().to_vec()).unwrap_or_default();
+    if got.iter().map(|g| g.0.clone()).collect::<Vec<_>>() != want.iter().map(|w| w.0.clone()).collect::<Vec<_>>() {
+        return Err((generic("decode/pub-point-uris"), format!("pubPointIssues members {:?}", got.iter().map(|g| &g.0).collect::<Vec<_>>())));
+    }
+    for (g, w) in got.iter().zip(want.iter()) {
+        check_issues("pubPointIssues", Some(&g.1), &w.1, "message").map_err(|m| (generic("decode/log-messages"), m))?;
+    }
+    if case.rtr_detailed {
+        let clients = doc.get("rtr").and_then(|r| r.get("clients")).map(|c| c.members().len());
+        let mut want: Vec<IpAddr> = case.rtr_clients.clone();
+        want.sort();
+        want.dedup();
+        if clients != Some(want.len()) {
+            return Err((generic("decode/rtr-clients"), format!("{:?} rtr clients listed, {} connected", clients, want.len())));
+        }
+    }
+    Ok(())
+}
+
+fn judge_metrics(case: &Case, body: &[u8]) -> Result<(), (String, String)> {
+    let generic = |k: &str| label_key(case).map(|s| s.to_string()).unwrap_or_else(|| format!("C22/metrics/{}", k));
+    let doc = prom_parse(body).map_err(|e| (generic("parse-error"), format!("/metrics does not parse as Prometheus text format: {}", e)))?;
+    let labels_of = |metric: &str, label: &str| -> Vec<String> { doc.samples.iter().filter(|s| s.name == metric).filter_map(|s| s.labels.iter().find(|(n, _)| n == label).map(|(_, v)| v.clone())).collect() };
+    let rsync: Vec<String> = case.rsync.iter().map(|e| e.module.clone()).collect();
+    let rrdp: Vec<String> = case.rrdp.iter().map(|e| e.uri.clone()).collect();
+    let checks: [(&str, &str, &Vec<String>); 7] = [
+        ("routinator_ta_valid_vrps_total", "name", &case.tals),
+        ("routinator_ta_contributed_vrps_total", "name", &case.tals),
+        ("routinator_valid_roas", "tal", &case.tals),
+        ("routinator_repository_valid_vrps_total", "uri", &case.repos),
+        ("routinator_repository_duplicate_vrps_total", "uri", &case.repos),
+        ("routinator_rsync_status", "uri", &rsync),
+        ("routinator_rrdp_status", "uri", &rrdp),
+    ];
+    for (metric, label, want) in checks {
+        let got = labels_of(metric, label);
+        if got != *want {
+            return Err((generic(&format!("decode/{}", metric)), format!("{}{{{}}} label values decode to {:?}, injected {:?}", metric, label, got, want)));
+        }
+    }
+    // every sample of a per-TAL / per-repository family must carry one of the injected names
+    for s in &doc.samples {
+        let (label, pool) = if s.name.starts_with("routinator_ta_") {
+            ("name", &case.tals)
+        } else if s.name.starts_with("routinator_repository_") {
+            ("uri", &case.repos)
+        } else {
+            continue;
+        };
+        match s.labels.iter().find(|(n, _)| n == label) {
+            Some((_, v)) if pool.contains(v) => {}
+            other => return Err((generic("decode/stray-label"), format!("line {}: {} has {} = {:?}", s.line, s.name, label, other))),
+        }
+    }
+    for (n, _) in &doc.types {
+        if !doc.help.iter().any(|(h, _)| h == n) {
+            return Err((generic("type-without-help"), format!("metric {} has TYPE but no HELP", n)));
+        }
+    }
+    if case.rtr_detailed {
+        let mut want: Vec<IpAddr> = case.rtr_clients.clone();
+        want.sort();
+        want.dedup();
+        let got = labels_of("routinator_rtr_client_connections", "addr");
+        if got != want.iter().map(|a| a.to_string()).collect::<Vec<_>>() {
+            return Err((generic("decode/rtr-clients"), format!("rtr client addr labels {:?}, connected {:?}", got, want)));
+        }
+    }
+    Ok(())
+}
+
+fn interesting_for_status(s: &str) -> bool {
+    has_quote_or_backslash(s) || !s.is_ascii() || has_json_ctl(s)
+}
+
+fn interesting_for_metrics(s: &str) -> bool {
+    s.chars().any(|c| matches!(c, '{' | '}' | ',' | '=' | '#' | ' ' | '"' | '\\') || !c.is_ascii() || c.is_control())
+}
+
+pub fn prop(env: &Env, case: &Case, info: &mut CaseInfo) -> Verdict {
+    let metrics = match build_metrics(case) {
+        Ok(m) => m,
+        Err(e) => return Verdict::Dropped(format!("generator_produced_invalid_uri:{}", e.split(':').next().unwrap_or(""))),
+    };
+    let served = Served::new(env.ctx.scratch(), 2, case.rtr_detailed);
+    for a in &case.rtr_clients {
+        let c = served.rtr_metrics.get_client(*a);
+        c.update(|d| d.inc_current_connections());
+        if case.counter % 2 == 0 {
+            c.update(|d| d.update_now(7.into(), case.counter % 4 == 0));
+        }
+    }
+    served.update(env.kit, &[], &LocalSpec::default(), metrics);
+    let sk = status_key(case);
+    let lk = label_key(case);
+    let status_excluded = env.exclude && sk.map(|k| env.ctx.known_key(k).is_some() && !env.ctx.strict).unwrap_or(false);
+    let metrics_excluded = env.exclude && lk.map(|k| env.ctx.known_key(k).is_some() && !env.ctx.strict).unwrap_or(false);
+    let st = status_strings(case);
+    let lb = label_strings(case);
+    if st.iter().any(|s| has_quote_or_backslash(s)) {
+        info.class("status:quote_or_backslash");
+    }
+    if st.iter().any(|s| has_json_ctl(s)) {
+        info.class("status:control_char");
+    }
+    if st.iter().any(|s| !s.is_ascii()) {
+        info.class("non_ascii");
+    }
+    if let Some(k) = lk {
+        info.class(format!("labels:{}", k.rsplit('/').next().unwrap()));
+    }
+    if case.rsync.iter().any(|e| e.log.is_some()) || case.rrdp.iter().any(|e| e.log.is_some()) || !case.pub_point_logs.is_empty() {
+        info.class("has_log_book");
+    }
+    if case.rtr_detailed {
+        info.class("rtr_detailed");
+    }
+    let mut judged_any = false;
+    if !env.judge_status {
+    } else if status_excluded {
+        env.excluded_status.set(env.excluded_status.get() + 1);
+        info.class("status_not_judged(known shape)");
+    } else {
+        judged_any = true;
+        let resp = get(env.rt, &served.handler, "/api/v1/status");
+        if resp.status != 200 {
+            return Verdict::fail("C22/status/http-status", format!("GET /api/v1/status -> {}", resp.status));
+        }
+        if let Err((key, msg)) = judge_status(case, &resp.body()) {
+            return Verdict::fail(key, msg);
+        }
+        info.nt(st.iter().any(|s| interesting_for_status(s)));
+    }
+    if !env.judge_metrics {
+    } else if metrics_excluded {
+        let c = match lk.unwrap() {
+            KEY_LABEL_QUOTE => &env.excluded_quote,
+            KEY_LABEL_BACKSLASH => &env.excluded_backslash,
+            _ => &env.excluded_newline,
+        };
+        c.set(c.get() + 1);
+        info.class("metrics_not_judged(known shape)");
+    } else {
+        judged_any = true;
+        let resp = get(env.rt, &served.handler, "/metrics");
+        if resp.status != 200 {
+            return Verdict::fail("C22/metrics/http-status", format!("GET /metrics -> {}", resp.status));
+        }
+        if let Err((key, msg)) = judge_metrics(case, &resp.body()) {
+            return Verdict::fail(key, msg);
+        }
+        info.nt(lb.iter().any(|s| interesting_for_metrics(s)));
+    }
+    if !judged_any {
+        info.class("nothing_judged");
+    }
+    Verdict::Pass
+}
+
+//------------------------------------------------------------------------------------------
+// Generators
+
+fn logs(class: StrClass) -> BoxedStrategy<Option<Vec<LogMsg>>> {
+    prop::option::weighted(0.6, prop::collection::vec((0u8..4, text_strategy(class, 24)).prop_map(|(level, text)| LogMsg { level, text }), 1..=3)).boxed()
+}
+
+/// Valid rsync module / https URIs built from the characters rpki's URI types admit.
+fn safe_uri(scheme: &'static str) -> BoxedStrategy<String> {
+    let chars: Vec<char> = "abcXYZ019-._~!$&'()*+,;=%".chars().collect();
+    (prop::collection::vec(prop::sample::select(chars.clone()), 1..=8), prop::collection::vec(prop::sample::select(chars), 1..=8), 0u8..3)
+        .prop_map(move |(h, m, tail)| {
+            let h: String = h.into_iter().collect();
+            let m: String = m.into_iter().collect();
+            match (scheme, tail) {
+                ("rsync", _) => format!("rsync://h{}.test/m{}/", h, m),
+                (_, 0) => format!("https://{}.test/{}/notification.xml", h, m),
+                (_, _) => format!("https://{}.test/{}", h, m),
+            }
+        })
+        .boxed()
+}
+
+fn repo_uri(class: StrClass) -> BoxedStrategy<String> {
+    prop_oneof![
+        2 => safe_uri("rsync"),
+        2 => safe_uri("https"),
+        3 => text_strategy(class, 16).prop_map(|s| format!("https://{}", s)),
+        2 => text_strategy(class, 16).prop_map(|s| format!("rsync://h/{}", s)),
+        2 => text_strategy(class, 16),
+    ]
+    .boxed()
+}
+
+fn case_of_class(class: StrClass) -> BoxedStrategy<Case> {
+    let rsync = (safe_uri("rsync"), prop::option::weighted(0.8, prop_oneof![Just(0i32), Just(256), Just(9), Just(5120), any::<i32>()]), prop::option::of(any::<u32>()), logs(class)).prop_map(|(module, status, duration_ms, log)| RsyncEntry { module, status, duration_ms, log });
+    let rrdp = (
+        safe_uri("https"),
+        prop_oneof![Just(0u16), Just(1), Just(200), Just(304), Just(404), Just(500), 100u16..600],
+        prop::option::of(prop_oneof![Just(0u16), Just(200), Just(404), 100u16..600]),
+        prop::option::of(prop_oneof![Just(0u64), Just(u64::MAX), any::<u64>()]),
+        any::<bool>(),
+        prop::option::of(0u8..6),
+        prop::option::of(any::<u32>()),
+        logs(class),
+    )
+        .prop_map(|(uri, notify, payload, serial, session, reason, duration_ms, log)| RrdpEntry { uri, notify, payload, serial, session, reason, duration_ms, log });
+    let ppl = (safe_uri("rsync"), prop::collection::vec((0u8..4, text_strategy(class, 24)).prop_map(|(level, text)| LogMsg { level, text }), 1..=3));
+    let addr = prop_oneof![any::<[u8; 4]>().prop_map(IpAddr::from), any::<[u16; 8]>().prop_map(IpAddr::from), Just(IpAddr::from([127, 0, 0, 1]))];
+    (
+        prop::collection::vec(text_strategy(class, 14), 0..=5),
+        prop::collection::vec(repo_uri(class), 0..=4),
+        prop::collection::vec(rsync, 0..=3),
+        prop::collection::vec(rrdp, 0..=3),
+        prop::collection::vec(ppl, 0..=2),
+        any::<bool>(),
+        prop::collection::vec(addr, 0..=3),
+        any::<u32>(),
+    )
+        .prop_map(|(tals, repos, rsync, rrdp, pub_point_logs, rtr_detailed, rtr_clients, counter)| Case { tals, repos, rsync, rrdp, pub_point_logs, rtr_detailed, rtr_clients, counter })
+        .boxed()
+}
+
+fn case_strategy() -> BoxedStrategy<Case> {
+    prop_oneof![
+        1 => case_of_class(StrClass::Plain),
+        5 => case_of_class(StrClass::Tame),
+        3 => case_of_class(StrClass::Quoted),
+        2 => case_of_class(StrClass::Ctl),
+        2 => case_of_class(StrClass::Wild),
+    ]
+    .boxed()
+}
+
+fn directed(tal: &str, msg: &str) -> Case {
+    Case {
+        tals: vec!["ripe".into(), tal.into()],
+        repos: vec!["rsync://rpki.example.net/repo/".into()],
+        rsync: vec![RsyncEntry { module: "rsync://rpki.example.net/repo/".into(), status: Some(256), duration_ms: Some(1500), log: Some(vec![LogMsg { level: 1, text: msg.into() }]) }],
+        rrdp: vec![],
+        pub_point_logs: vec![],
+        rtr_detailed: false,
+        rtr_clients: vec![],
+        counter: 1,
+    }
+}
+
+pub fn run(ctx: &Ctx, rep: &mut Report, replay: Option<&serde_json::Value>) {
+    rep.rule(
+        "Metrics values with 0..=5 TAL names, 0..=4 repository URIs (valid URIs and arbitrary strings), 0..=3 rsync and RRDP entries with optional log books of 1..=3 messages, publication-point logs and 0..=3 RTR clients; every free-text string of a case is drawn from one class (plain / anything but quote, backslash, C0 controls / with quote and backslash / with C0 controls except LF / anything; alphabet of 18 letters + 47 special characters incl. NUL, TAB, CR, LF, ESC, DEL, U+2028, BOM, combining and non-BMP characters); installed via SharedHistory::update, fetched through the real dispatcher; non-trivial = a judged document renders a string with a quote, backslash, control, structural ({},=# space) or non-ASCII character; distinct by serialised case",
+    );
+    rep.assume("a parse is successful when serde_json accepts /api/v1/status and the exposition satisfies the Prometheus text format 0.0.4 grammar (label value escapes \\\\, \\\", \\n only; blanks between tokens tolerated as by the reference Go parser); grouping of a family's samples is not demanded");
+    rep.assume("log books are filled through LogBookWriter under a permissive global logger installed by the check");
+    if let Err(e) = prom_selftest() {
+        eprintln!("C22 preamble failed: {}", e);
+        std::process::exit(2);
+    }
+    let _ = log::set_logger(&SINK);
+    log::set_max_level(log::LevelFilter::Trace);
+    let kit = Kit::new();
+    let rt = runtime();
+    let env = Env { kit: &kit, rt: &rt, ctx, exclude: true, judge_status: true, judge_metrics: true, excluded_status: Cell::new(0), excluded_quote: Cell::new(0), excluded_backslash: Cell::new(0), excluded_newline: Cell::new(0) };
+    if let Some(v) = replay {
+        let t: Tagged<Case> = serde_json::from_value(v.clone()).expect("replay");
+        let env = Env { judge_status: t.sub != "directed-metrics", ..env };
+        run_case(ctx, rep, &t.sub, &t.case, |c, i| prop(&env, c, i));
+        return;
+    }
+    // directed representatives: one per known key, plus neighbours that must pass
+    let all = Env { kit: &kit, rt: &rt, ctx, exclude: false, judge_status: true, judge_metrics: true, excluded_status: Cell::new(0), excluded_quote: Cell::new(0), excluded_backslash: Cell::new(0), excluded_newline: Cell::new(0) };
+    let strict_env = |c: &Case, i: &mut CaseInfo| prop(&all, c, i);
+    // status: a log message as produced from a remote error containing a control character
+    run_case(ctx, rep, "directed", &directed("arin", "rsync: connection reset\tby peer\u{1b}[0m"), strict_env);
+    run_case(ctx, rep, "directed", &directed("my \"own\" tal", "plain"), strict_env);
+    run_case(ctx, rep, "directed", &directed("dir\\tal", "plain"), strict_env);
+    let metrics_only = Env { kit: &kit, rt: &rt, ctx, exclude: false, judge_status: false, judge_metrics: true, excluded_status: Cell::new(0), excluded_quote: Cell::new(0), excluded_backslash: Cell::new(0), excluded_newline: Cell::new(0) };
+    run_case(ctx, rep, "directed-metrics", &directed("two\nlines", "plain"), |c, i| prop(&metrics_only, c, i));
+    // neighbours: quotes and backslashes in a log message only (status must escape them, /metrics does not render them)
+    run_case(ctx, rep, "directed", &directed("apnic", "server said \"no\" at C:\\path"), strict_env);
+    run_case(ctx, rep, "directed", &directed("läcnic — ✓ {x=1}, #tag", "non-ascii ünïcödé 😀"), strict_env);
+    run_prop(ctx, rep, "docs", ctx.tier.pick(12_000, 300_000), case_strategy(), |c, i| prop(&env, c, i));
+    for (k, n) in [(KEY_STATUS_CTL, env.excluded_status.get()), (KEY_LABEL_QUOTE, env.excluded_quote.get()), (KEY_LABEL_BACKSLASH, env.excluded_backslash.get()), (KEY_LABEL_NEWLINE, env.excluded_newline.get())] {
+        for _ in 0..n {
+            rep.exclude_known(k);
+        }
+    }
 }
